@@ -134,56 +134,38 @@ def ms(*seqs):
     return c
 
 
-def correspond_robust(run, group, module, terms, cases, shard=250, retries=3):
-    """run.correspond, but a shard whose coqc process died (the machine is shared; coqc gets OOM-killed
-    under load) is re-run instead of being reported as a disagreement.  Real disagreements (coqc ran
-    and `check` returned false) are never retried."""
-    import re
+def correspond_robust(run, group, module, terms, cases, shard=250, per_call=8, retries=4):
+    """run.correspond in chunks of `per_call` shards; a chunk in which a coqc process died (the machine
+    is shared; coqc gets OOM-killed under load) is re-run instead of being reported as a disagreement.
+    Real disagreements (coqc ran and `check` returned false) are never retried or dropped."""
     import time
     import vlib
     old_ncpu = vlib.NCPU
-    vlib.NCPU = max(1, min(old_ncpu, 8))
+    vlib.NCPU = max(1, min(old_ncpu, per_call))
+    total = {"cases": 0, "disagree": 0, "errors": 0}
+    died = 0
     try:
-        run.correspond(group, module, terms, cases, shard=shard)
-        todo_terms, todo_cases = terms, cases
-        gname = group
-        for attempt in range(retries):
-            errs = [d for d in run.disagreements if d.get("group") == gname and d.get("coq_error")]
-            nerr = run.corr_groups.get(gname, {}).get("errors", 0)
-            if not nerr:
-                break
-            # which shards died?  (only the first three are listed individually; if more died, redo all)
-            idx = set()
-            for d in errs:
-                m = re.search(r"_(\d+)\.v$", d["coq_error"]["file"])
-                if m:
-                    idx.add(int(m.group(1)))
-            nshards = (len(todo_terms) + shard - 1) // shard
-            if len(idx) != nerr:
-                idx = set(range(nshards))
-                # drop everything recorded for this group; it is all recomputed
-                run.disagreements[:] = [d for d in run.disagreements if d.get("group") != gname]
-                run.corr_groups[gname]["disagree"] = 0
-            else:
-                run.disagreements[:] = [d for d in run.disagreements if not (d.get("group") == gname and d.get("coq_error"))]
-            run.corr_groups[gname]["errors"] = 0
-            sub_t, sub_c = [], []
-            for k in sorted(idx):
-                sub_t += todo_terms[k * shard:(k + 1) * shard]
-                sub_c += todo_cases[k * shard:(k + 1) * shard]
-            run.corr_groups[gname]["cases"] -= len(sub_t)
-            # cases of the shards that did complete were not counted as validated traces because of the error
-            ok_cases = len(todo_terms) - len(sub_t)
-            run.traces += ok_cases - run.corr_groups[gname]["disagree"]
-            run.notes.append("correspondence group %s: %d shard(s) died (coqc killed / crashed), re-run as %sR%d"
-                             % (gname, len(idx), group, attempt + 1))
-            time.sleep(5 * (attempt + 1))
-            vlib.NCPU = max(1, vlib.NCPU // 2)
-            gname = "%sR%d" % (group, attempt + 1)
-            todo_terms, todo_cases = sub_t, sub_c
-            run.correspond(gname, module, todo_terms, todo_cases, shard=shard)
+        chunk = shard * per_call
+        for j in range(0, len(terms), chunk):
+            sub_t, sub_c = terms[j:j + chunk], cases[j:j + chunk]
+            for attempt in range(retries):
+                g = "%s%d" % (group, j // chunk) if attempt == 0 else "%s%dR%d" % (group, j // chunk, attempt)
+                before = len(run.disagreements)
+                run.correspond(g, module, sub_t, sub_c, shard=shard)
+                res = run.corr_groups.pop(g)
+                if res["errors"] == 0 or attempt == retries - 1:
+                    for k in total:
+                        total[k] += res[k]
+                    break
+                # a coqc died: nothing of this call counts (vlib adds no traces when a shard errored)
+                del run.disagreements[before:]
+                died += 1
+                time.sleep(3 * (attempt + 1))
     finally:
         vlib.NCPU = old_ncpu
+    run.corr_groups[group] = total
+    if died:
+        run.notes.append("correspondence: %d chunk run(s) repeated because a coqc process died (killed / crashed)" % died)
 
 
 def main(run):
